@@ -8,7 +8,7 @@ from typing import Optional
 
 from ..prog import AnalysisError, ClassInfo, FuncInfo, dotted, unparse
 from ..asn1schema import Schema
-from ..shape import ShapeChecker, norm
+from ..shape import ShapeChecker, norm, INF
 from ..match import pretty
 
 FAC = "facilities"
@@ -31,6 +31,235 @@ INPUTS = {
     "current_tpv.get('lat')": (-90.0, 90.0), "current_tpv.get('lon')": (-180.0, 180.0),
     "self._cluster.radius": (0.0, 1000.0),
 }
+
+
+SCALAR_TAGS = {"builtin:bytes", "builtin:bytearray", "builtin:int", "builtin:str", "builtin:float", "builtin:bool"}
+GROWERS = {"append": 0, "insert": 1, "appendleft": 0}     # list method -> index of the element argument
+
+
+class Checker(ShapeChecker):
+    """ShapeChecker plus five resolutions the engine class leaves opaque:
+
+    * ENUMERATED positions fed from a constant container of names (``NAMES[i]``, ``TABLE[k]``, ``TABLE.get(k, d)`` on a
+      module-level / class-level list, tuple or dict of strings): every name that can be selected must be an enumerator;
+    * BIT STRING positions fed by an expression whose declared type is a scalar (bytes, int, ...): not a (bytes, bits) pair;
+    * an INTEGER computed from the quantifier's inputs for which no bound at all can be derived fails (instead of being opaque);
+    * both branches of a conditional expression are checked under the outcome of its test (guard refinement);
+    * SEQUENCE OF positions fed by a local list that is grown element by element (``lst.append(v)``, ``insert``,
+      ``extend``, ``+=``, ``lst[i] = v``) - in a callee that returns the list, or in the storing function itself: every
+      element put into the list is checked against the element type under the guards in force where it is put in."""
+
+    # ------------------------------------------------------------------ names selected from constant containers
+    def _const_container(self, fi: FuncInfo, node: ast.AST):
+        """(module, value node) of a module-level / class-level constant named by `node`, else None."""
+        if isinstance(node, ast.Name):
+            if node.id in fi.params or "@" in node.id:
+                return None
+            for n in ast.walk(fi.node):
+                if isinstance(n, ast.Name) and n.id == node.id and isinstance(n.ctx, (ast.Store, ast.Del)):
+                    return None       # a local of that name shadows the constant
+        r = self.P.resolve_expr_entity(fi.module, node)
+        if isinstance(r, tuple) and r[0] == "const":
+            return r[1], r[2]
+        if isinstance(r, tuple) and r[0] == "classattr":
+            return r[1].module, r[1].fields[r[2]][1]
+        return None
+
+    def _selected_names(self, e: ast.AST, fi: FuncInfo) -> Optional[list]:
+        """Strings `e` can evaluate to when it selects from a constant container of strings, else None."""
+        P = self.P
+        recv = key = None
+        defaults = []
+        if isinstance(e, ast.Subscript):
+            recv, key = e.value, e.slice
+        elif isinstance(e, ast.Call) and isinstance(e.func, ast.Attribute) and e.func.attr == "get" and 1 <= len(e.args) <= 2 \
+                and not e.keywords:
+            recv, key = e.func.value, e.args[0]
+            if len(e.args) == 2:
+                d = e.args[1]
+                if isinstance(d, ast.Constant) and isinstance(d.value, str):
+                    defaults = [d.value]
+                elif not (isinstance(d, ast.Constant) and d.value is None):
+                    return None
+        if recv is None or isinstance(key, ast.Slice):
+            return None
+        cc = self._const_container(fi, recv)
+        if cc is None:
+            return None
+        mod, val = cc
+        k = P.try_fold(fi.module, key, default="<nc>")
+        if isinstance(val, (ast.List, ast.Tuple)) and isinstance(e, ast.Subscript):
+            items = [P.try_fold(mod, x, default="<nc>") for x in val.elts]
+            if not items or not all(isinstance(x, str) for x in items):
+                return None
+            if isinstance(k, int) and not isinstance(k, bool) and -len(items) <= k < len(items):
+                return [items[k]]
+            return items
+        if isinstance(val, ast.Dict):
+            if any(kk is None for kk in val.keys):
+                return None
+            keys = [P.try_fold(mod, kk, default="<nc>") for kk in val.keys]
+            items = [P.try_fold(mod, x, default="<nc>") for x in val.values]
+            if not items or not all(isinstance(x, str) for x in items):
+                return None
+            if k != "<nc>" and k in keys and "<nc>" not in keys:
+                return [items[keys.index(k)]]
+            return items + defaults
+        return None
+
+    # ------------------------------------------------------------------ conformance
+    def check(self, e, t, fi, fl, st, path, env=None, complete=False, depth=0):
+        kind = t.get("type")
+        if isinstance(e, ast.IfExp) and st is not None and fl is not None and depth <= 12:
+            # each branch of a conditional expression is checked under the outcome of its test
+            line = getattr(e, "lineno", 0)
+            self.check(e.body, t, fi, fl, st.with_fact(*fl._mkfacts(e.test, True, st, line)), path, env, complete, depth + 1)
+            self.check(e.orelse, t, fi, fl, st.with_fact(*fl._mkfacts(e.test, False, st, line)), path, env, complete, depth + 1)
+            return
+        if depth <= 12 and not (isinstance(e, ast.Name) and env and e.id in env):
+            con = fi.short()
+            loc = f"{fi.module.rel}:{getattr(e, 'lineno', fi.node.lineno)}"
+            tname = t.get("_name", kind)
+            if kind == "ENUMERATED":
+                vals = self._selected_names(e, fi)
+                if vals is not None:
+                    self.n_values += 1
+                    names = self.S.enum_names(t)
+                    for v in dict.fromkeys(vals):
+                        self.ctx.ob(self.rs, con, f"{path}:enum:{v}", v in names,
+                                    f"`{v}` (selected from `{unparse(e)[:40]}`) " + ("is" if v in names else "is NOT") +
+                                    f" an enumerator of {tname}" + ("" if v in names else f" ({names[:10]}...): encoding raises"), loc)
+                    return
+            if kind == "INTEGER" and not isinstance(e, (ast.Constant, ast.Dict, ast.Tuple, ast.List)) and self.S.int_range(t) is not None \
+                    and not (isinstance(e, ast.Call) and self._repo_target(fi, e) is not None):
+                # a value computed from the quantifier's inputs must be PROVEN in range: no bound at all is a failure, not an opaque value
+                lo, hi = self.ival(e, fi, fl, st, env or {})
+                used = sorted({norm(pretty(unparse(n))) for n in ast.walk(e) if isinstance(n, (ast.Subscript, ast.Call, ast.Attribute))
+                               and norm(pretty(unparse(n))) in self.inputs})
+                if lo == -INF and hi == INF and used:
+                    rng = self.S.int_range(t)
+                    self.n_values += 1
+                    self.ctx.ob(self.rr, con, f"{path}:range", False,
+                                f"`{pretty(unparse(e))[:60]}` is computed from {used} but nothing bounds it; {tname} allows [{rng[0]}, {rng[1]}] - "
+                                "values outside make the encoder raise (or wrap)", loc)
+                    return
+            if kind == "BIT STRING" and isinstance(e, (ast.Attribute, ast.Name)) and "@" not in unparse(e):
+                ts = self.P.expr_types(fi, e)
+                if ts and all(isinstance(x, str) and x in SCALAR_TAGS for x in ts):
+                    self.n_values += 1
+                    self.ctx.ob(self.rs, con, f"{path}:shape", False,
+                                f"{tname} is a BIT STRING: asn1tools needs a (bytes, number-of-bits) pair; `{unparse(e)[:50]}` is declared "
+                                f"{sorted(x.split(':')[1] for x in ts)} - encoding raises", loc)
+                    return
+        return super().check(e, t, fi, fl, st, path, env, complete, depth)
+
+    # ------------------------------------------------------------------ lists grown element by element
+    def _bind(self, callee: FuncInfo, call: ast.Call, fi, fl, st, env) -> dict:
+        params = callee.params
+        off = 1 if callee.kind in ("method", "classmethod") and params else 0
+        cenv = {}
+        for i, a in enumerate(call.args):
+            if i + off < len(params):
+                cenv[params[i + off]] = (a, fi, fl, st, env)
+        for kw in call.keywords:
+            if kw.arg:
+                cenv[kw.arg] = (kw.value, fi, fl, st, env)
+        return cenv
+
+    def _call_or_opaque(self, e, t, fi, fl, st, path, env, complete, depth):
+        super()._call_or_opaque(e, t, fi, fl, st, path, env, complete, depth)
+        if isinstance(e, ast.Call):
+            callee = self._repo_target(fi, e)
+            if callee is not None and self._inl < 6:
+                cenv = self._bind(callee, e, fi, fl, st, env)
+                cfl = self.ctx.flows.get(callee)
+                self._inl += 1
+                try:
+                    for k, s, cst in cfl.exits:
+                        if k == "return" and s.value is not None:
+                            self.grown(s.value, t, callee, cfl, cst, path, cenv, depth + 1)
+                finally:
+                    self._inl -= 1
+
+    def grown(self, v: ast.AST, t: dict, fi: FuncInfo, fl, st, path: str, env: dict = None, depth: int = 0, _seen=None):
+        """Walk the UNEXPANDED value `v` along type `t`; wherever a local list sits at a SEQUENCE OF position, check every
+        element the function puts into that list."""
+        env = env or {}
+        _seen = _seen if _seen is not None else set()
+        if depth > 12 or v is None:
+            return
+        S = self.S
+        kind = t.get("type")
+        if isinstance(v, ast.IfExp):
+            self.grown(v.body, t, fi, fl, st, path, env, depth + 1, _seen)
+            self.grown(v.orelse, t, fi, fl, st, path, env, depth + 1, _seen)
+            return
+        if isinstance(v, ast.Name):
+            if v.id in fi.params or st is None or v.id not in st.defs:
+                return
+            if kind in ("SEQUENCE OF", "SET OF") and ("grow", fi.qual, v.id, path) not in _seen:
+                _seen.add(("grow", fi.qual, v.id, path))
+                self._check_grow_sites(v.id, t, fi, fl, path, env, depth)
+            for d in fl.reaching(v.id, st):
+                if d.kind == "assign" and d.value is not None and id(d.stmt) in fl.before and (fi.qual, d.did) not in _seen:
+                    _seen.add((fi.qual, d.did))
+                    self.grown(d.value, t, fi, fl, fl.before[id(d.stmt)], path, env, depth + 1, _seen)
+            return
+        if isinstance(v, ast.Dict) and kind in ("SEQUENCE", "SET"):
+            members = {m["name"]: m for m in S.members(t)}
+            for k, vv in zip(v.keys, v.values):
+                if isinstance(k, ast.Constant) and k.value in members:
+                    self.grown(vv, S.resolve(members[k.value], t.get("_module")), fi, fl, st, f"{path}.{k.value}", env, depth + 1, _seen)
+            return
+        if isinstance(v, ast.Tuple) and kind == "CHOICE" and len(v.elts) == 2 and isinstance(v.elts[0], ast.Constant):
+            alts = {m["name"]: m for m in S.members(t)}
+            if v.elts[0].value in alts:
+                self.grown(v.elts[1], S.resolve(alts[v.elts[0].value], t.get("_module")), fi, fl, st,
+                           f"{path}.{v.elts[0].value}", env, depth + 1, _seen)
+            return
+        if isinstance(v, (ast.List, ast.Tuple)) and kind in ("SEQUENCE OF", "SET OF"):
+            et = S.resolve(t.get("element", {}), t.get("_module"))
+            for i, x in enumerate(v.elts):
+                self.grown(x, et, fi, fl, st, f"{path}[{i}]", env, depth + 1, _seen)
+
+    def _check_grow_sites(self, name: str, t: dict, fi: FuncInfo, fl, path: str, env: dict, depth: int):
+        et = self.S.resolve(t.get("element", {}), t.get("_module"))
+        epath = f"{path}[*]"
+
+        def element(x, at):
+            try:
+                sst = fl.state_at(at)
+            except AnalysisError:
+                return
+            self.check(fl.expand(x, sst), et, fi, fl, sst, epath, env, True, depth + 1)
+
+        def many(x, at):
+            if isinstance(x, (ast.List, ast.Tuple)):
+                for y in x.elts:
+                    element(y, at)
+            elif isinstance(x, ast.Name) and x.id != name:
+                try:
+                    self.grown(x, t, fi, fl, fl.state_at(at), path, env, depth + 1)
+                except AnalysisError:
+                    pass
+            else:
+                self.n_opaque += 1
+                self.ctx.note(f"{fi.module.rel}:{getattr(at, 'lineno', 0)}: elements added to `{name}` by `{unparse(x)[:40]}` not analysed")
+
+        for n in ast.walk(fi.node):
+            if isinstance(n, ast.Call) and isinstance(n.func, ast.Attribute) and isinstance(n.func.value, ast.Name) \
+                    and n.func.value.id == name:
+                if n.func.attr in GROWERS and len(n.args) > GROWERS[n.func.attr]:
+                    element(n.args[GROWERS[n.func.attr]], n)
+                elif n.func.attr in ("extend", "extendleft") and len(n.args) == 1:
+                    many(n.args[0], n)
+            elif isinstance(n, ast.AugAssign) and isinstance(n.target, ast.Name) and n.target.id == name and isinstance(n.op, ast.Add):
+                many(n.value, n)
+            elif isinstance(n, ast.Assign):
+                for tg in n.targets:
+                    if isinstance(tg, ast.Subscript) and isinstance(tg.value, ast.Name) and tg.value.id == name \
+                            and not isinstance(tg.slice, ast.Slice):
+                        element(n.value, n)
 
 
 @dataclass
@@ -76,7 +305,7 @@ class Messages:
 
     def checker(self, kind: str, rule_schema: str, rule_range: str) -> ShapeChecker:
         self.load(kind)
-        return ShapeChecker(self.ctx, self.schemas[kind], rule_schema, rule_range, INPUTS)
+        return Checker(self.ctx, self.schemas[kind], rule_schema, rule_range, INPUTS)
 
     # ------------------------------------------------------------------ stores into a message
     def _root_path(self, kind: str, fi: FuncInfo, fl, st, target: ast.AST) -> Optional[list]:
@@ -186,6 +415,7 @@ def check_stores(ctx, M: Messages, kind: str, rule_schema: str, rule_range: str,
         ctx.ob(rule_schema, s.fi.short(), f"{pstr}:path", True, f"`{pstr}` is a {t.get('_name', t.get('type'))}", loc)
         val = fl.expand(s.value, st)
         ck.check(val, t, s.fi, fl, st, pstr, {}, True)
+        ck.grown(s.value, t, s.fi, fl, st, pstr, {})
         # builder functions that extend a local dict after creating it
         _check_local_extensions(ctx, M, ck, s, t, pstr)
     return n
